@@ -2,6 +2,7 @@ package isobmff
 
 import (
 	"github.com/evanoberholster/imagemeta/meta"
+	"github.com/evanoberholster/imagemeta/verifhook"
 	"github.com/pkg/errors"
 	"github.com/rs/zerolog"
 )
@@ -15,6 +16,14 @@ type box struct {
 	boxType boxType
 	outer   *box
 	reader  *Reader
+}
+
+// depth returns the nesting depth of the box (0 for a top-level box). Used by the verification hooks.
+func (b *box) depth() (d int) {
+	for o := b.outer; o != nil; o = o.outer {
+		d++
+	}
+	return d
 }
 
 // isType returns the boxType
@@ -52,6 +61,7 @@ func (b *box) Read(p []byte) (n int, err error) {
 		//fmt.Println(b.remain)
 		n, err = b.reader.br.Read(p)
 		b.adjust(n)
+		verifhook.T("bmff", "read", int64(n), int64(len(p)), int64(b.remain))
 		return n, err
 	}
 	return 0, ErrRemainLengthInsufficient
@@ -68,6 +78,7 @@ func (b *box) adjust(n int) {
 }
 
 func (b *box) close() error {
+	verifhook.T("bmff", "close", int64(b.depth()), int64(b.remain))
 	if b.remain == 0 {
 		return nil
 	}
@@ -103,6 +114,7 @@ func (b *box) readInnerBox() (inner box, next bool, err error) {
 			// than int64.
 			return inner, false, errors.Wrapf(errLargeBox, "readBox '%s'", inner.boxType)
 		}
+		verifhook.T("bmff", "open", int64(inner.offset), inner.size, 16, int64(inner.depth()), int64(inner.boxType))
 		_, err = inner.Discard(16)
 		return inner, true, err
 		//case 0:
@@ -110,6 +122,7 @@ func (b *box) readInnerBox() (inner box, next bool, err error) {
 		// r.noMoreBoxes = true
 		// TODO: error
 	}
+	verifhook.T("bmff", "open", int64(inner.offset), inner.size, 8, int64(inner.depth()), int64(inner.boxType))
 	_, err = inner.Discard(8)
 	return inner, true, err
 }
